@@ -74,9 +74,10 @@ func main() {
 			"features for which the canonical battery reproduces an open keyed finding are not used by seeded programs of the same platform pair (so that one finding does not hide the rest); the canonical battery keeps them",
 			"deadlock = engine not running, not kicked and no application progress over a long run of observations; the wall-clock watchdog only yields inconclusive",
 		},
-		MinNontrivial: c.N(40, 400),
-		MinCounters: map[string]int64{"programs_compared": int64(c.N(60, 500)), "wavefronts_compared": int64(c.N(400, 5000)),
-			"instructions_compared": int64(c.N(100000, 1500000)), "buffers_compared": int64(c.N(300, 3000)), "shipped_compared": int64(c.N(5, 20))},
+		MinNontrivial: c.N(80, 800),
+		MinCounters: map[string]int64{"programs_compared": int64(c.N(100, 1000)), "wavefronts_compared": int64(c.N(400, 5000)),
+			"instructions_compared": int64(c.N(80000, 1000000)), "buffers_compared": int64(c.N(500, 5000)), "shipped_compared": int64(c.N(5, 20)),
+			"emulation_self_stable": int64(c.N(100, 600))},
 	})
 }
 
